@@ -134,9 +134,11 @@ NOT_APPLICABLE = {
     
     
     
-    "C19": "quantitative liveness claim over two run-time lengths and hex-digit counts: no clause is visible in "
-           "the shape of the code without evaluating that arithmetic (a solver or execution would be another "
-           "technique family); a structural proxy would fire on correct rewrites. Not decided by static analysis.",
+    "C19": "quantitative liveness claim over two run-time lengths and hex-digit counts. Under the chunk-writer schema "
+           "extracted for C18 the first clause can be refuted statically (one-digit reserve vs. multi-digit size line), "
+           "but no implementation can be *passed*: the clauses hold only for an exact perfect-fit chunk sizing, whose "
+           "correctness is digit-count arithmetic over all usize (a solver or execution would be another technique "
+           "family); a schema rule could only ever report a violation or 'cannot decide'. See DESIGN.md section 4 C19.",
 }
 
 MANIFEST_META = {
